@@ -123,7 +123,19 @@ import os as _os
 _R4 = (4,) if _os.environ.get('PYVC_TIER') == 'thorough' else ()      # the thorough tier adds rank 4
 
 
-def _cases(ranks, flags):
+def _symmetric_result(f, args, res):
+    """C05: every returned pair function is symmetric in the two type labels (on the contract's post-state)."""
+    data = f.getattr(res, 'data')
+    n = data.shape[1]
+    out = []
+    for a in range(n):
+        for b in range(a + 1, n):
+            out.append(('result[%d,%d] == result[%d,%d] at every grid point' % (a, b, b, a),
+                        f.forall(data.shape[0], lambda l, a=a, b=b: f.eq(f.elem(data, (l, a, b)), f.elem(data, (l, b, a))))))
+    return out
+
+
+def _cases(ranks, flags, post=None):
     ranks = tuple(ranks) + _R4
 
     def gen():
@@ -133,13 +145,13 @@ def _cases(ranks, flags):
                     d = dict(PRISM=mk_PRISM(f, n))
                     d.update(fl)
                     return d
-                yield 'rank=%d%s' % (n, ''.join(',%s=%s' % kv for kv in sorted(fl.items()))), build
+                yield 'rank=%d%s' % (n, ''.join(',%s=%s' % kv for kv in sorted(fl.items()))), build, ({'post': post} if post else {})
     return gen
 
 
-cases(pair_correlation)(_cases((1, 2, 3), [{}]))
-cases(pmf)(_cases((1, 2, 3), [{}]))
-cases(structure_factor)(_cases((1, 2, 3), [{'normalize': True}, {'normalize': False}]))
+cases(pair_correlation)(_cases((1, 2, 3), [{}], post=_symmetric_result))
+cases(pmf)(_cases((1, 2, 3), [{}], post=_symmetric_result))
+cases(structure_factor)(_cases((1, 2, 3), [{'normalize': True}, {'normalize': False}], post=_symmetric_result))
 cases(second_virial)(_cases((1, 2, 3), [{'extrapolate': True}, {'extrapolate': False}]))
 
 
@@ -204,7 +216,7 @@ def solvation_potential(PRISM, closure='HNC'):
     return psi
 
 
-cases(solvation_potential)(_cases((1, 2, 3), [{'closure': 'HNC'}, {'closure': 'PY'}]))
+cases(solvation_potential)(_cases((1, 2, 3), [{'closure': 'HNC'}, {'closure': 'PY'}], post=_symmetric_result))
 
 
 # --------------------------------------------------------------------------- chi
